@@ -641,6 +641,8 @@ Lemma f_find_ok : forall p s o, f_find p s o = f_find p s (out_of_res (collect o
 Proof. intros p s [v|a b|e]; reflexivity. Qed.
 Lemma f_position_ok : forall p s o, f_position p s o = f_position p s (out_of_res (collect o)).
 Proof. intros p [i r0] [v|a b|e]; reflexivity. Qed.
+Lemma f_for_ok : forall q s o, f_for q s o = f_for q s (out_of_res (collect o)).
+Proof. intros q s [v|a b|e]; reflexivity. Qed.
 Lemma f_fold_ok : forall g s o, f_fold g s o = f_fold g s (out_of_res (collect o)).
 Proof. intros g s [v|a b|e]; reflexivity. Qed.
 
@@ -663,6 +665,8 @@ Definition consumer_spec (c : consumer) (l : list res) : option cres :=
   | CPosition p => Some (fin (fun v => v) (snd (fold_spec _ (f_position p) (0, inl VNull) l)))
   | CFold init g => Some (fin (fun v => v) (fold_spec _ (f_fold g) (inl init) l))
   | CNexts _ => None
+  | CFor quiet => Some (fin (fun c => VInt (Z.of_N c)) (fold_spec _ (f_for quiet) (inl 0) l))
+  | CUnpack _ => None
   end.
 
 Theorem consumers_are_folds : forall c it l r, Sem it l -> consumer_spec c l = Some r ->
@@ -685,6 +689,7 @@ Proof.
   - destruct (cfold_sem _ _ (f_find_ok p) l it (inl VNull) H) as (n & t & it' & HF & _). exists n, t, it'. rewrite HF. reflexivity.
   - destruct (cfold_sem _ _ (f_position_ok p) l it (0, inl VNull) H) as (n & t & it' & HF & _). exists n, t, it'. rewrite HF. reflexivity.
   - destruct (cfold_sem _ _ (f_fold_ok f) l it (inl init) H) as (n & t & it' & HF & _). exists n, t, it'. rewrite HF. reflexivity.
+  - destruct (cfold_sem _ _ (f_for_ok quiet) l it (inl 0) H) as (n & t & it' & HF & _). exists n, t, it'. rewrite HF. reflexivity.
 Qed.
 
 (* readable instances on error-free sequences *)
